@@ -78,7 +78,11 @@ func main() {
 	}
 	switch os.Args[1] {
 	case "dump":
-		fmt.Print(dumpTables())
+		part := "tables"
+		if len(os.Args) > 2 {
+			part = os.Args[2]
+		}
+		fmt.Print(dumpPart(part))
 	case "facts":
 		root := "/repo"
 		if len(os.Args) > 2 {
